@@ -103,7 +103,8 @@ class C17(core.Check):
                                        'neg:file-label-of-included', 'neg:file-label/include-top', 'neg:file-label/include-after-global-label',
                                        'neg:file-label/include-after-local-label', 'neg:file-label/include-after-org',
                                        'neg:file-label/include-nested', 'class:symbol-spelled-like-a-word-of-the-include-line',
-                                       'symbol-from:define', 'symbol-from:config', 'symbol-from:cmdline']}
+                                       'symbol-from:define', 'symbol-from:config', 'symbol-from:cmdline',
+                                       'neg:main-file-again/relative', 'neg:main-file-again/absolute', 'neg:main-file-again/symlinked-directory']}
 
     def metamorphic(self, rng, nest_p=0.5, prefer_mute=0):
         g = None
@@ -305,7 +306,7 @@ class C17(core.Check):
                            'meta': {'class': 'metamorphic', 'image': None, 'kind': 'ACCEPT', 'includes': ['a.asm']},
                            'tags': ['class:include-in-uncompiled-branch', 'dirs:1', 'nesting:1']}
 
-    def negative(self, rng, kind):
+    def negative(self, rng, kind, how=None):
         isa = gen_prog.layout_isa(16)
         fn, itext = isamod.render_isa(isa, 'json')
         fl = {fn: itext}
@@ -323,6 +324,21 @@ class C17(core.Check):
             else:
                 fl['p.asm'] = '.byte 1\n#include "a.asm"\n'
                 fl['a.asm'] = '.byte 2\n#include "a.asm"\n'
+        elif kind == 'main-file-again':
+            # the main file pulled in once more from a file it includes: a guard keeps the second pass from looping, and that
+            # does not make it legal; the main file is named relatively, absolutely, through ./ or through a symbolic link
+            fl['p.asm'] = '.byte 1\n#ifndef C17_ONCE\n#define C17_ONCE 1\n#include "a.asm"\n#endif\n.byte 9\n'
+            fl['a.asm'] = '.byte 2\n#include "p.asm"\n.byte 3\n'
+            how = ['relative', 'absolute', 'dot-slash', 'subdir-and-back', 'symlinked-directory'][rng.randrange(5)] if how is None else how
+            main_ = {'relative': 'p.asm', 'absolute': '{SCRATCH}/p.asm', 'dot-slash': './p.asm', 'subdir-and-back': 'sub/../p.asm',
+                     'symlinked-directory': 'alias_dir/p.asm'}[how]
+            argv = ['compile', '-c', fn, main_, '-o', 'out.bin']
+            extra_ = {'dirs': ['sub']}
+            if how == 'symlinked-directory':
+                extra_['symlinks'] = {'alias_dir': '.'}
+            return {'runs': [dict({'files': fl, 'argv': argv, 'probes': ['steps', 'files'], 'step_limit': 500000, 'cpu_s': 10}, **extra_)],
+                    'meta': {'class': 'negative', 'kind': 'REJECT', 'why': kind + '/' + how, 'image': None},
+                    'tags': ['neg:' + kind, 'neg:main-file-again/' + how]}
         elif kind == 'missing-file':
             fl['p.asm'] = '.byte 1\n#include "nothere.asm"\n.byte 2\n'
         elif kind == 'ambiguous-name':
@@ -393,6 +409,9 @@ class C17(core.Check):
         for i in range(25 if tier == 'quick' else 100):
             rng = core.rng_for(0, self.pid, 'neg', i)
             yield self.negative(rng, negs[i % 5])
+        for i in range(15):
+            rng = core.rng_for(0, self.pid, 'negmain', i)
+            yield self.negative(rng, 'main-file-again', ['relative', 'absolute', 'dot-slash', 'subdir-and-back', 'symlinked-directory'][i % 5])
         for i in range(80 if tier == 'quick' else 400):
             rng = core.rng_for(0, self.pid, 'negfl', i)
             yield self.negative(rng, ['file-label-of-includer', 'file-label-of-included'][i % 2])
